@@ -510,3 +510,86 @@ def h_simulate_stats(c):
     df = f(params, initial_states=init, seed=c["seed"])
     cols = {col: np.asarray(df[col], dtype=float).tolist() for col in df.columns}
     return {"columns": {k: [to_wire(x) for x in v] for k, v in cols.items()}, "n_rows": len(df)}
+
+
+# ---- C17 ---------------------------------------------------------------------------------
+def h_indexers_and_segments(c):
+    from lcm.state_space import create_indexers_and_segments, create_combination_grid
+    mask = np.array(c["mask"]["data"], dtype=bool).reshape(c["mask"]["shape"])
+    si, _, seg = create_indexers_and_segments(jnp.asarray(mask), c["n_sparse_states"])
+    grids = {f"v{k}": jnp.arange(n) for k, n in enumerate(c["mask"]["shape"])}
+    combo = create_combination_grid(grids, jnp.asarray(mask))
+    cols = [np.asarray(combo[f"v{k}"]).tolist() for k in range(len(c["mask"]["shape"]))]
+    n = len(cols[0]) if cols else 0
+    return {"state_indexer": arr_wire(np.asarray(si)),
+            "segment_ids": [int(x) for x in np.asarray(seg["segment_ids"])],
+            "num_segments": int(seg["num_segments"]),
+            "combinations": [[int(col[r]) for col in cols] for r in range(n)]}
+
+
+def h_state_space(c):
+    from lcm.input_processing import process_model
+    from lcm.state_space import create_state_choice_space
+    model = _build_model(c)
+    mod = process_model(model)
+    t = c["period"]
+    sc, info, indexers, segments = create_state_choice_space(model=mod, period=t, is_last_period=(t == mod.n_periods - 1), jit_filter=False)
+    out = {"sparse_names": list(sc.sparse_vars), "dense_names": list(sc.dense_vars),
+           "sparse_vars": [[to_wire(x) for x in np.asarray(v).tolist()] for v in sc.sparse_vars.values()]}
+    if indexers:
+        out["state_indexer"] = arr_wire(np.asarray(indexers["state_indexer"]))
+    else:
+        out["state_indexer"] = None
+    if segments is not None:
+        out["segment_ids"] = [int(x) for x in np.asarray(segments["segment_ids"])]
+        out["num_segments"] = int(segments["num_segments"])
+    else:
+        out["segment_ids"] = None
+        out["num_segments"] = None
+    return out
+
+
+# ---- C14 ---------------------------------------------------------------------------------
+def _disc_grid(n, name="C"):
+    from dataclasses import make_dataclass, field
+    from lcm import DiscreteGrid
+    return DiscreteGrid(make_dataclass(name, [(f"c{i}", int, field(default=i)) for i in range(n)]))
+
+
+def h_funrep(c):
+    from lcm.function_representation import get_function_representation
+    from lcm.interfaces import IndexerInfo, SpaceInfo
+    from lcm import LinspaceGrid, LogspaceGrid
+    vf = jnp.asarray(wire_arr(c["vf_arr"]))
+    rnames, dnames, cnames = c["restricted_names"], c["dense_names"], c["cont_names"]
+    axis_names = (["state_index"] if c["indexer"] is not None else []) + dnames + cnames
+    if c.get("axis_names_override"):
+        axis_names = c["axis_names_override"]
+    lookup_info = {}
+    if c["indexer"] is not None:
+        for nm, n in zip(rnames, c["indexer"]["shape"]):
+            lookup_info[nm] = _disc_grid(n)
+    off = 1 if c["indexer"] is not None else 0
+    for k, nm in enumerate(dnames):
+        lookup_info[nm] = _disc_grid(c["vf_arr"]["shape"][off + k])
+    interp = {}
+    for nm, (a, b, n, v) in zip(cnames, c["conts"]):
+        cls = LogspaceGrid if c.get("log") else LinspaceGrid
+        interp[nm] = cls(start=float(fq(a)), stop=float(fq(b)), n_points=n)
+    if c.get("interp_order"):
+        interp = {k: interp[k] for k in c["interp_order"]}
+    infos = [IndexerInfo(axis_names=rnames, name="state_indexer", out_name="state_index")] if c["indexer"] is not None else []
+    info = SpaceInfo(axis_names=axis_names, lookup_info=lookup_info, interpolation_info=interp, indexer_infos=infos)
+    f = get_function_representation(info, "vf_arr", input_prefix="next_")
+    kw = {"vf_arr": vf}
+    if c["indexer"] is not None:
+        kw["state_indexer"] = jnp.asarray(np.array(c["indexer"]["data"], dtype=int).reshape(c["indexer"]["shape"]))
+        for nm, l in zip(rnames, c["restricted_labels"]):
+            kw["next_" + nm] = jnp.asarray(l)
+    for nm, l in zip(dnames, c["dense_labels"]):
+        kw["next_" + nm] = jnp.asarray(l)
+    for nm, (a, b, n, v) in zip(cnames, c["conts"]):
+        kw["next_" + nm] = jnp.asarray(fq(v), dtype=float)
+    if c.get("jit"):
+        f = jax.jit(f)
+    return to_wire(f(**kw))
